@@ -430,7 +430,10 @@ def run(ctx):
                           ('define k "nobody" assign nm k println nm', 'define k "nobody" assign nm {k} println nm'),
                           ('println "abc" print "x y"', 'println {"abc"} print {"x y"}'),
                           ('define k "light_1" assign s k on s print k', 'define k "light_1" assign s {k} on s print {k}'),
-                          ('define f with p begin println p end f "t" f a', 'define f with p begin println {p} end f {"t"} f {a}')]:
+                          ('define f with p begin println p end f "t" f a', 'define f with p begin println {p} end f {"t"} f {a}'),
+                          # ... and so is a time of day: a literal or a constant defined as one
+                          ('define wake 8:00 assign t wake println t define f with p begin println p end f 7:*5 f wake',
+                           'define wake 8:00 assign t {wake} println {t} define f with p begin println {p} end f {7:*5} f {wake}')]:
         ctx.count()
         pa, ea = lang.compile_script(PRE + plain)
         pb, eb = lang.compile_script(PRE + braced)
